@@ -114,10 +114,32 @@ def enclosing_stmt(fi, node):
 
 
 def enclosing_for(fi, node):
+    """The loop in whose *body* `node` is executed (a node inside the iterable / test of a loop belongs
+    to the enclosing one)."""
     pm = fi.pm
-    n = pm.get(node)
+    child, n = node, pm.get(node)
     while n is not None and n is not fi.node:
         if isinstance(n, (ast.For, ast.While)):
-            return n
-        n = pm.get(n)
+            head = n.iter if isinstance(n, ast.For) else n.test
+            if not any(x is child for x in ast.walk(head)) and child is not getattr(n, "target", None):
+                return n
+        child, n = n, pm.get(n)
     return None
+
+
+def source_changed_guards(fi):
+    """Texts (resolved spelling) of the tests in `fi` that compare the formula source read *before*
+    `formula._reload(...)` with the source it returns: `<old> != <new>` in either order, whatever the
+    locals are called."""
+    out = set()
+    for n in fi.cfg.nodes:
+        e = n.ast if n.kind == "test" else None
+        if isinstance(e, ast.Compare) and len(e.ops) == 1 and isinstance(e.ops[0], ast.NotEq):
+            a, b = q.origin(fi, e.left), q.origin(fi, e.comparators[0])
+            ta, tb = norm(a), norm(b)
+            pair = {ta.endswith(".formula.source") and "_reload(" not in ta, "_reload(" in tb and tb.endswith(".source")}
+            pair2 = {tb.endswith(".formula.source") and "_reload(" not in tb, "_reload(" in ta and ta.endswith(".source")}
+            if pair == {True} or pair2 == {True}:
+                out.add(q.anorm(fi, e))
+                out.add(norm(e))
+    return out
